@@ -38,9 +38,8 @@ def byte_at(mem, a):
 def havoc_state(mode="single_stage_pipeline", detect=True, tag=""):
     """Any architectural state: real constructor, then arbitrary registers (x0 = 0), data memory, counters."""
     st = RiscvArchitecturalState(pipeline_mode=mode, detect_data_hazards=detect)
-    regs = [UInt32(0)]
-    for i in range(1, 32):
-        regs.append(sym_fixed("x%d%s" % (i, tag), UInt32))
+    regs = sym_list("x" + tag, 32, UInt32)
+    regs[0] = UInt32(0)
     st.register_file.registers = Registers(regs)
     st.memory = data_memory("L" + tag)
     pm = st.performance_metrics
@@ -59,12 +58,10 @@ def build(mn, tag=""):
     rd = sym_int("rd" + tag, 0, 31)
     rs1 = sym_int("rs1" + tag, 0, 31)
     rs2 = sym_int("rs2" + tag, 0, 31)
-    if mn in ("xori", "ori", "andi"):
-        # bit-vector obligations need a finite interval; the constructor keeps only the low 12 bits anyway
-        # (that it does so for EVERY integer is the separate unit C01/constructors/immediates)
-        imm = sym_int("imm" + tag, -2 ** 32, 2 ** 32)
-    else:
-        imm = sym_int("imm" + tag)
+    # every encodable immediate and far beyond (41 bits); that the constructors keep exactly the low bits,
+    # sign-extended, for EVERY Python integer is the separate unit C01/constructors/immediates.  A finite
+    # interval lets mask-heavy obligations be decided as bit-vectors.
+    imm = sym_int("imm" + tag, -2 ** 40, 2 ** 40)
     if issubclass(cls, RTypeInstruction):
         return cls(rd=rd, rs1=rs1, rs2=rs2), rd, rs1, rs2, None
     if mn == "ecall":
